@@ -750,6 +750,11 @@ impl SubsetTable<'_> for PaintColrLayers<'_> {
     ) -> Result<(), SerializeErrorFlags> {
         let start_pos = s.embed_bytes(self.min_table_bytes())?;
 
+        // an empty layer range refers to no layer: the closure collects nothing for it
+        if self.num_layers() == 0 {
+            return Ok(());
+        }
+
         let old_layer_idx = self.first_layer_index();
         let Some(new_layer_idx) = plan.colrv1_layers.get(&old_layer_idx) else {
             return Err(s.set_err(SerializeErrorFlags::SERIALIZE_ERROR_OTHER));
